@@ -21,13 +21,13 @@ Qed.
 
 (* a call made from inside a try body that throws: the caller's view is exactly what it was at the call,
    whatever layered and un-layered callees below it had written, notified, moved or set *)
-Theorem failed_call_no_trace pol c f body cid fl s s' :
+Theorem failed_call_no_trace pol via c f body cid fl s s' :
   guard pol body = true -> ne s ->
-  exec pol (Call c f body) cid fl true s = Thrown s' -> bad s' = false ->
+  exec pol (CallV via c f body) cid fl true s = Thrown s' -> bad s' = false ->
   abs s' = rollback (abs s).
 Proof.
   intros G H E B.
-  assert (GC : guard pol (Call c f body) = true) by exact G.
+  assert (GC : guard pol (CallV via c f body) = true) by exact G.
   pose proof (exec_sim pol _ GC cid fl true s H) as S. rewrite E in S. specialize (S B). cbn [iexec] in S.
   destruct (has fl fR && has fl fC && (f <=? fAll) && is_contract c); [|simpl in S; tauto].
   destruct (iexec body c (N.land fl f) (abs s)); simpl in S; try tauto.
@@ -38,7 +38,7 @@ Qed.
    if no finally block contains a contract call, no frame ever returns while an exception is pending *)
 Lemma nocalls_bad pol p : nocalls p = true -> forall cid fl it s, bad (rstate (exec pol p cid fl it s)) = bad s.
 Proof.
-  induction p as [| | | | | |to amt cb IHcb|to amt cb IHcb| |p1 p2 IHp1 IHp2|c rf body IHbody|b c f IHb IHc IHf| |] using prog_ind';
+  induction p as [| | | | | |to amt cb IHcb|to amt cb IHcb| |p1 p2 IHp1 IHp2|via c rf body IHbody|b c f IHb IHc IHf| |] using prog_ind';
     intros NC cid cf it s; cbn [exec nocalls] in *; try discriminate; auto; try (case_if; reflexivity).
   - apply andb_true_iff in NC. destruct NC as [N1 N2].
     specialize (IHp1 N1 cid cf it s). destruct (exec pol p1 cid cf it s) as [s1|s1|s1]; simpl in *; auto.
@@ -61,7 +61,7 @@ Qed.
 
 Theorem g2_clean pol p : g2 p = true -> forall cid fl it s, exc s = false -> bad (rstate (exec pol p cid fl it s)) = bad s.
 Proof.
-  induction p as [| | | | | |to amt cb IHcb|to amt cb IHcb| |p1 p2 IHp1 IHp2|c rf body IHbody|b c f IHb IHc IHf| |] using prog_ind';
+  induction p as [| | | | | |to amt cb IHcb|to amt cb IHcb| |p1 p2 IHp1 IHp2|via c rf body IHbody|b c f IHb IHc IHf| |] using prog_ind';
     intros G cid cf it s X; cbn [exec g2] in *; auto; try (case_if; reflexivity).
   - (* Move *)
     case_if; auto. cbv zeta. case_if.
